@@ -465,7 +465,7 @@ func isReset(err error) bool {
 }
 
 // rawExchange writes data under the segmentation schedule and reads the reply stream.
-func rawExchange(network, addr string, data []byte, seg Seg, end int, stall time.Duration) (*Exchange, error) {
+func rawExchange(network, addr string, data []byte, seg Seg, end int, stall time.Duration, slowReadUS ...int) (*Exchange, error) {
 	c, local, err := dialRaw(network, addr)
 	if err != nil {
 		return nil, err
@@ -481,6 +481,9 @@ func rawExchange(network, addr string, data []byte, seg Seg, end int, stall time
 				c.SetReadDeadline(time.Now().Add(stall))
 				n, err := c.Read(buf)
 				ex.Got = append(ex.Got, buf[:n]...)
+				if len(slowReadUS) > 0 && slowReadUS[0] > 0 {
+					time.Sleep(time.Duration(slowReadUS[0]) * time.Microsecond)
+				}
 				if err != nil {
 					if err == io.EOF {
 						ex.EOF = true
